@@ -70,6 +70,14 @@ def recognise(A, cname):
         if n == 'builtin.range' and len(pos) == 1:
             a = strip_views(pos[0])
             L.range_ok = a.op == 'param' and a.args[0] == 'iterations'
+        if not L.range_ok:
+            # another spelling of the same count: reversed(range(iterations)), range(1, iterations + 1), ... decided by evaluation; None = not followed
+            from .inteval import trip_count_is
+            tc = trip_count_is(it, 'iterations')
+            if tc is not None:
+                L.range_ok = tc
+            elif not (n == 'builtin.range' and len(pos) == 1):
+                L.range_ok = None          # range(<something else>) stays a deviation; an iterable of another kind is not followed
     # M-step: unconditional call bound to the model variable
     nxt = M.next
     L.m_call = nxt if isinstance(nxt, T) and nxt.op == 'call' else None
